@@ -144,40 +144,30 @@ theorem mem_branch_iff {t n : T} : n ∈ flatL t.kids ↔ ∃ x ∈ ann t, x.nod
   rw [← annL_nodes true t 0 t.kids, List.mem_map]; rfl
 
 theorem mem_rdfNodeAdds_hasChild {par : Option Subj} {n : T} {idx : Option Nat} {s : Subj} {d : DataId} :
-    Triple.hasChild s d ∈ rdfNodeAdds par n idx ↔ par = some s ∧ s.truthy = true ∧ n.did = d := by
+    Triple.hasChild s d ∈ rdfNodeAdds par n idx ↔ par = some s ∧ n.did = d := by
   unfold rdfNodeAdds
   cases par with
   | none => cases n.kind <;> cases idx <;> simp
   | some p =>
-    by_cases hp : p.truthy = true
-    · cases n.kind <;> cases idx <;> simp [hp] <;>
-        exact ⟨fun ⟨h1, h2⟩ => ⟨h1.symm, h1 ▸ hp, h2.symm⟩, fun ⟨h1, _, h3⟩ => ⟨h1.symm, h3.symm⟩⟩
-    · cases n.kind <;> cases idx <;> simp [hp] <;> intro h1 h2 <;> exact absurd (h1 ▸ h2) hp
+    cases n.kind <;> cases idx <;> simp <;>
+      exact ⟨fun ⟨h1, h2⟩ => ⟨h1.symm, h2.symm⟩, fun ⟨h1, h2⟩ => ⟨h1.symm, h2.symm⟩⟩
 
 theorem mem_rdfNodeAdds_name {par : Option Subj} {n : T} {idx : Option Nat} {s : Subj} {v : String} :
     Triple.name s v ∈ rdfNodeAdds par n idx ↔ s = .lit n.did ∧ v = n.name := by
   unfold rdfNodeAdds
-  cases par with
-  | none => cases n.kind <;> cases idx <;> simp
-  | some p => cases n.kind <;> cases idx <;> by_cases hp : p.truthy = true <;> simp [hp]
+  cases par <;> cases n.kind <;> cases idx <;> simp
 
 theorem mem_rdfNodeAdds_kind {par : Option Subj} {n : T} {idx : Option Nat} {d : DataId} {k : String} :
     Triple.kind d k ∈ rdfNodeAdds par n idx ↔ n.did = d ∧ n.kind = some k := by
   unfold rdfNodeAdds
-  cases par with
-  | none => cases n.kind <;> cases idx <;> simp <;> exact ⟨fun ⟨a, b⟩ => ⟨a.symm, b.symm⟩, fun ⟨a, b⟩ => ⟨a.symm, b.symm⟩⟩
-  | some p =>
-    cases n.kind <;> cases idx <;> by_cases hp : p.truthy = true <;> simp [hp] <;>
-      exact ⟨fun ⟨a, b⟩ => ⟨a.symm, b.symm⟩, fun ⟨a, b⟩ => ⟨a.symm, b.symm⟩⟩
+  cases par <;> cases n.kind <;> cases idx <;> simp <;>
+    exact ⟨fun ⟨a, b⟩ => ⟨a.symm, b.symm⟩, fun ⟨a, b⟩ => ⟨a.symm, b.symm⟩⟩
 
 theorem mem_rdfNodeAdds_index {par : Option Subj} {n : T} {idx : Option Nat} {d : DataId} {i : Nat} :
     Triple.index d i ∈ rdfNodeAdds par n idx ↔ n.did = d ∧ idx = some i := by
   unfold rdfNodeAdds
-  cases par with
-  | none => cases n.kind <;> cases idx <;> simp <;> exact ⟨fun ⟨a, b⟩ => ⟨a.symm, b.symm⟩, fun ⟨a, b⟩ => ⟨a.symm, b.symm⟩⟩
-  | some p =>
-    cases n.kind <;> cases idx <;> by_cases hp : p.truthy = true <;> simp [hp] <;>
-      exact ⟨fun ⟨a, b⟩ => ⟨a.symm, b.symm⟩, fun ⟨a, b⟩ => ⟨a.symm, b.symm⟩⟩
+  cases par <;> cases n.kind <;> cases idx <;> simp <;>
+    exact ⟨fun ⟨a, b⟩ => ⟨a.symm, b.symm⟩, fun ⟨a, b⟩ => ⟨a.symm, b.symm⟩⟩
 
 theorem mem_exported_iff {b : Bool} {t n : T} :
     n ∈ exported b t ↔ (b = true ∧ n = t) ∨ ∃ x ∈ ann t, x.node = n := by
